@@ -44,7 +44,7 @@ SEPS = {
     ("csv", "semi"): (";", None), ("csv", "tabfs"): ("\t", None), ("csv", None): (",", None),
     ("dkvp", "semi"): (";", ":"), ("dkvp", None): (",", "="),
     ("nidx", "comma"): (",", None), ("nidx", None): (" ", None),
-    ("xtab", None): (None, " "), ("pprint", None): (" ", None), ("markdown", None): (" ", None),
+    ("xtab", "wideps"): (None, "\u2192"), ("xtab", None): (None, " "), ("pprint", None): (" ", None), ("markdown", None): (" ", None),
     ("csvlite", "semi"): (";", None), ("csvlite", None): (",", None),
     ("tsv", None): (None, None), ("json", None): (None, None),
 }
@@ -69,6 +69,7 @@ FLAGS = {
     ("nidx", "default"): (["--onidx"], ["--inidx"]),
     ("nidx", "comma"): (["--onidx", "--ofs", "comma"], ["--inidx", "--ifs", "comma"]),
     ("xtab", "default"): (["--oxtab"], ["--ixtab"]),
+    ("xtab", "wideps"): (["--oxtab", "--ops", "\u2192"], ["--ixtab", "--ips", "\u2192"]),
     ("pprint", "default"): (["--opprint"], ["--ipprint"]),
     ("pprint", "barred"): (["--opprint", "--barred"], ["--ipprint", "--barred-input"]),
     ("pprint", "right"): (["--opprint", "--right"], ["--ipprint"]),
